@@ -102,8 +102,15 @@ def r1(ctx):
     adt = ctx.facts.adts.get("error::SignatureError")
     if adt is None:
         raise AnchorMissing("enum error::SignatureError")
-    st = eval_enum_fn(ctx.fn("error::SignatureError::http_status"), adt)
-    code = eval_enum_fn(ctx.fn("error::SignatureError::error_code"), adt)
+    def table_fn(m):
+        """the inherent method, or - when the tables were moved into the trait impl - the ServiceError method itself"""
+        try:
+            return ctx.fn("error::SignatureError::" + m), True
+        except AnchorMissing:
+            return ctx.fn("<error::SignatureError as scratchstack_errors::ServiceError>::" + m), False
+    (fst, inh_st), (fcode, inh_code) = table_fn("http_status"), table_fn("error_code")
+    st = eval_enum_fn(fst, adt)
+    code = eval_enum_fn(fcode, adt)
     ctx.count(2 * len(st))
     ctx.extra["taxonomy"] = {v: {"status": st[v], "code": code[v]} for v in st}
     ctx.extra["taxonomy_exhaustive"] = True
@@ -142,8 +149,11 @@ def r1(ctx):
     if ok:
         yield PASS("C13-R1", "taxonomy", "exhaustive over %d kinds: statuses %s; codes injective except IO/InternalServiceError" % (len(st), {k: st[k] for k in sorted(st)}), ["src/error.rs http_status", "src/error.rs error_code"])
     # trait impl forwards
-    for m in ("error_code", "http_status"):
+    for m, inherent in (("error_code", inh_code), ("http_status", inh_st)):
         f = ctx.fn("<error::SignatureError as scratchstack_errors::ServiceError>::" + m)
+        if not inherent:
+            yield PASS("C13-R1", "service-error-impl/" + m, "the table is the trait method itself (evaluated above)", [loc(f.j["span"])])
+            continue
         cs = f.calls()
         if len(cs) != 1 or cs[0][1].get("resolved") != "error::SignatureError::" + m or f.slice([0]).consts:
             yield VIOL("C13-R1", "service-error-impl/" + m, "ServiceError::%s does not forward to SignatureError::%s" % (m, m), where=loc(f.j["span"]))
